@@ -476,3 +476,67 @@ PARTS = {
     "segments": {"strategy": lambda tier: spec_sched(tier, with_cut=True), "check": check_segments,
                  "examples": {"quick": 800, "thorough": 15000}, "sample": view},
 }
+
+
+# ------------------------------------------------------------------------------------------------ walls on a periodic variable
+
+@st.composite
+def spec_pwalls(draw, tier):
+    P = draw(st.sampled_from([2.0, 4.0, 1.25]))
+    lo = rnd(draw(fl(-0.5, 0.5)) * P, 3)
+    gap = rnd(draw(fl(0.05, 0.95)) * P, 3)
+    T = draw(st.integers(2, 8))
+    xs = [rnd(draw(fl(-1.5, 1.5)) * P, 3) for _ in range(T)]
+    return {"P": P, "lo": lo, "up": rnd(lo + gap, 3), "xs": xs, "klo": rnd(draw(fl(0.2, 9)), 2), "kup": rnd(draw(fl(0.2, 9)), 2),
+            "width": draw(st.sampled_from([1.0, 0.5, 0.25])), "center": rnd(draw(fl(-1, 1)) * P, 2)}
+
+
+def check_pwalls(spec, ctx):
+    P, w = spec["P"], spec["width"]
+    # the variable lives on [center-P/2, center+P/2)
+    lb = spec["center"] - 0.5 * P
+    cfg = cvz.zvar("z0", 1, lb, lb + P, w, periodic=True)
+    cfg += "\nharmonicWalls {\n  name r\n  colvars z0\n  lowerWalls %s\n  upperWalls %s\n  lowerWallConstant %s\n  upperWallConstant %s\n}\n" % (
+        fmt(spec["lo"]), fmt(spec["up"]), fmt(spec["klo"]), fmt(spec["kup"]))
+    L = cvz.header(2, 0) + ["config <<END\n%s\nEND" % cfg]
+    for x in spec["xs"]:
+        L += [cvz.pos_line_z([x], 2), "step"]
+    case = "\n".join(L) + "\n"
+    r = run_case(case)
+    if r.crashed or r.of("config")[0]["rc"] != 0:
+        return Outcome(False, msg="crash/rejected: %s %s" % (r.stderr[-300:], r.of("config")[:1]), sig="gen_invalid", case_text=case)
+
+    def sd(a, c):
+        d = a - c
+        return d - P * math.floor(d / P + 0.5)
+    across = 0
+    active = set()
+    for s, x in zip(r.of("step"), spec["xs"]):
+        if s["errbits"]:
+            return Outcome(False, msg="step error %s" % s["errs"], sig="step_error", case_text=case)
+        dl, du = sd(x, spec["lo"]), sd(x, spec["up"])
+        d = 0.0
+        if dl * dl < du * du:
+            if dl < 0:
+                d = dl
+        elif du > 0:
+            d = du
+        k = spec["kup"] if d > 0 else spec["klo"]
+        expE = 0.5 * k / (w * w) * d * d
+        expF = -k / (w * w) * d
+        if d != 0.0:
+            active.add("upper" if d > 0 else "lower")
+            wall = spec["up"] if d > 0 else spec["lo"]
+            if abs(x - wall) > 0.5 * P:
+                across += 1
+        E, f = s["bias"][0]["E"], s["cv"][0]["f"][0]
+        if abs(E - expE) > 1e-10 * max(1.0, abs(expE)) or abs(f - expF) > 1e-10 * max(1.0, abs(expF)):
+            return Outcome(False, msg="periodic variable (period %r) at %r, walls %r / %r (constants %r / %r, width %r): energy %r force %r; the nearer wall "
+                           "by minimum-image distance gives energy %r force %r" % (P, x, spec["lo"], spec["up"], spec["klo"], spec["kup"], w, E, f, expE, expF),
+                           sig="periodic_walls", case_text=case)
+    return Outcome(True, nontrivial=len(active) >= 1 and across >= 1, cls=("pwalls",) + tuple(sorted(active)) + (("across",) if across else ()),
+                   strata=["pwalls"] + (["pwalls_across"] if across else []) + ["pwall:" + a for a in active], case_text=case)
+
+
+PARTS["periodic_walls"] = {"strategy": spec_pwalls, "check": check_pwalls, "examples": {"quick": 1200, "thorough": 20000}, "sample": lambda s_: s_}
+REQUIRED_STRATA = {"all": ["periodic_walls:pwalls_across", "periodic_walls:pwall:upper", "periodic_walls:pwall:lower"]}
